@@ -432,26 +432,92 @@ package opset13
 //@        (forall k :: 0 <= k && k < opmin(self) && k < len(inputs) ==> inputs[k] != nil)
 //@ spec all_new(ts []tensor.Tensor) bool = forall k :: 0 <= k && k < len(ts) ==> ts[k] != nil && fresh(ts[k])
 
+// the per-time-step calculations of the recurrent operators: new tensors, nothing else written
+//@ spec known_activation(f ops.Activation) bool = ref(f) == funcid("ops.Tanh") || ref(f) == funcid("ops.Sigmoid") || ref(f) == funcid("ops.ReLU")
+
+//@ func (*GRU).gateCalculation
+//@   tags C06,C02
+//@   requires activation_is_supported: known_activation(activation)
+//@   ensures new_result: err == nil ==> result != nil && fresh(result)
+
+//@ func (*GRU).htCalculation
+//@   tags C06,C02
+//@   requires activation_is_supported: known_activation(activation)
+//@   ensures new_result: err == nil ==> result != nil && fresh(result)
+
+//@ func (*GRU).hiddenCalculation
+//@   tags C06,C02
+//@   ensures new_result: err == nil ==> result != nil && fresh(result)
+
+//@ func (*LSTM).gateCalculation
+//@   tags C06,C02
+//@   requires activation_is_supported: known_activation(activation)
+//@   ensures new_result: err == nil ==> result != nil && fresh(result)
+
+//@ func (*LSTM).cellCalculation
+//@   tags C06,C02
+//@   ensures new_result: err == nil ==> result != nil && fresh(result)
+
+//@ func (*LSTM).hiddenCalculation
+//@   tags C06,C02
+//@   requires activation_is_supported: known_activation(activation)
+//@   requires cell_state_present: Ct != nil
+//@   ensures new_result: err == nil ==> result != nil && fresh(result)
+
+//@ func (*RNN).layerCalculation
+//@   tags C06,C02
+//@   requires activation_is_supported: known_activation(activation)
+//@   ensures new_result: err == nil ==> result != nil && fresh(result)
+
 //@ func (*LSTM).Apply
-//@   tags C02
+//@   tags C06,C02
 //@   requires self != nil
 //@   scope inputs_validated: apply_inputs_validated(asop(self), inputs)
 //@   modifies opstate(self)
-//@   loop 1 invariant Ht != nil && fresh(Ht) && Ct != nil && fresh(Ct) && all_new(outputs)
+//@   ensures sequence_lens_refused: inputs[4] != nil ==> err != nil
+//@   ensures hidden_size_unchanged: self.hiddenSize == old(self.hiddenSize)
+//@   loop 1 invariant self.hiddenSize == old(self.hiddenSize)
+//@   before Reshape#4 assert y_reshaped: rank(Y) == 4 && dim(Y, 0) == seqLength && dim(Y, 1) == 1 && dim(Y, 2) == batchSize && dim(Y, 3) == self.hiddenSize
+//@   before Reshape#4 assert y_and_y_h_are_different_tensors: ref(Y) != ref(Yh)
+//@   before Reshape#5 assert y_is_seq_1_batch_hidden: rank(Y) == 4 && dim(Y, 0) == seqLength && dim(Y, 1) == 1 && dim(Y, 2) == batchSize && dim(Y, 3) == self.hiddenSize
+//@   before Reshape#5 assert y_h_is_1_batch_hidden: rank(Yh) == 3 && dim(Yh, 0) == 1 && dim(Yh, 1) == batchSize && dim(Yh, 2) == self.hiddenSize
+//@   before Reshape#5 assert extents_read_at_entry: seqLength == old(dim(inputs[0], 0)) && batchSize == old(dim(inputs[0], 1))
+//@   loop 1 invariant Ht != nil && fresh(Ht) && Ct != nil && fresh(Ct)
+//@   loop 1 invariant all_new(outputs)
 
 //@ func (*GRU).Apply
-//@   tags C02
+//@   tags C06,C02
 //@   requires self != nil
+//@   before Reshape#3 assert y_reshaped: rank(Y) == 4 && dim(Y, 0) == seqLength && dim(Y, 1) == 1 && dim(Y, 2) == batchSize && dim(Y, 3) == self.hiddenSize
+//@   before Reshape#3 assert extents_read_at_entry: seqLength == old(dim(inputs[0], 0)) && batchSize == old(dim(inputs[0], 1))
+//@   before Reshape#3 assert y_and_y_h_are_different_tensors: ref(Y) != ref(Yh)
 //@   scope inputs_validated: apply_inputs_validated(asop(self), inputs)
 //@   modifies opstate(self)
-//@   loop 1 invariant prevH != nil && fresh(prevH) && all_new(outputs)
+//@   loop 1 invariant prevH != nil && fresh(prevH)
+//@   loop 1 invariant all_new(outputs)
+//@   loop 1 invariant self.hiddenSize == old(self.hiddenSize)
+//@   ensures sequence_lens_refused: inputs[4] != nil ==> err != nil
+//@   ensures two_outputs: err == nil ==> len(result) == 2 && result[0] != nil && result[1] != nil
+//@   ensures y_is_seq_1_batch_hidden: err == nil ==> rank(result[0]) == 4 && dim(result[0], 0) == old(dim(inputs[0], 0)) && dim(result[0], 1) == 1 && dim(result[0], 2) == old(dim(inputs[0], 1)) && dim(result[0], 3) == self.hiddenSize
+//@   ensures y_h_is_1_batch_hidden: err == nil ==> rank(result[1]) == 3 && dim(result[1], 0) == 1 && dim(result[1], 1) == old(dim(inputs[0], 1)) && dim(result[1], 2) == self.hiddenSize
+//@   ensures hidden_size_unchanged: self.hiddenSize == old(self.hiddenSize)
 
 //@ func (*RNN).Apply
-//@   tags C02
+//@   tags C06,C02
 //@   requires self != nil
+//@   before Reshape#3 assert y_reshaped: rank(Y) == 4 && dim(Y, 0) == seqLength && dim(Y, 1) == 1 && dim(Y, 2) == batchSize && dim(Y, 3) == self.hiddenSize
+//@   before Reshape#3 assert extents_read_at_entry: seqLength == old(dim(inputs[0], 0)) && batchSize == old(dim(inputs[0], 1))
+//@   before Reshape#3 assert y_and_y_h_are_different_tensors: ref(Y) != ref(Yh)
 //@   scope inputs_validated: apply_inputs_validated(asop(self), inputs)
 //@   modifies opstate(self)
-//@   loop 1 invariant Ht != nil && fresh(Ht) && all_new(outputs)
+//@   loop 1 invariant Ht != nil && fresh(Ht)
+//@   loop 1 invariant all_new(outputs)
+//@   loop 1 invariant self.hiddenSize == old(self.hiddenSize)
+//@   ensures sequence_lens_refused: inputs[4] != nil ==> err != nil
+//@   ensures two_outputs: err == nil ==> len(result) == 2 && result[0] != nil && result[1] != nil
+//@   ensures y_is_seq_1_batch_hidden: err == nil ==> rank(result[0]) == 4 && dim(result[0], 0) == old(dim(inputs[0], 0)) && dim(result[0], 1) == 1 && dim(result[0], 2) == old(dim(inputs[0], 1)) && dim(result[0], 3) == self.hiddenSize
+//@   ensures y_h_is_1_batch_hidden: err == nil ==> rank(result[1]) == 3 && dim(result[1], 0) == 1 && dim(result[1], 1) == old(dim(inputs[0], 1)) && dim(result[1], 2) == self.hiddenSize
+//@   ensures hidden_size_unchanged: self.hiddenSize == old(self.hiddenSize)
 
 //@ func (*MatMul).batchedMatMul
 //@   tags C02
@@ -995,6 +1061,63 @@ package opset13
 //@   loop 2 invariant forall k :: 0 <= k && k <= axis ==> dim(input, k) == adim(inputs[0], len(shape), k)
 //@   loop 2 exit assert every_axis_was_compatible: forall k :: 0 <= k && k < expand_n(inputs[0], inputs[1]) ==>
 //@          adim(inputs[0], expand_n(inputs[0], inputs[1]), k) == tdim(inputs[1], expand_n(inputs[0], inputs[1]), k) || adim(inputs[0], expand_n(inputs[0], inputs[1]), k) == 1 || tdim(inputs[1], expand_n(inputs[0], inputs[1]), k) == 1
+
+// ---------------------------------------------------------------------------------------
+// C06 (partly): attributes of the recurrent operators are stored, or refused - never ignored
+
+//@ func (*LSTM).Init
+//@   tags C06,C02
+//@   requires self != nil
+//@   scope attributes_present: n != nil && (forall k :: 0 <= k && k < len(n.Attribute) ==> n.Attribute[k] != nil)
+//@   modifies opstate(self)
+//@   ensures clip_refused: (exists k :: 0 <= k && k < len(n.Attribute) && n.Attribute[k].Name == "clip") ==> err != nil
+//@   ensures unknown_attribute_refused: (exists k :: 0 <= k && k < len(n.Attribute) && n.Attribute[k].Name != "activation_alpha" && n.Attribute[k].Name != "activation_beta" && n.Attribute[k].Name != "activations" && n.Attribute[k].Name != "direction" && n.Attribute[k].Name != "hidden_size" && n.Attribute[k].Name != "input_forget" && n.Attribute[k].Name != "clip") ==> err != nil
+//@   loop 1 invariant forall k :: 0 <= k && k < $i ==> (n.Attribute[k].Name == "activation_alpha" || n.Attribute[k].Name == "activation_beta" || n.Attribute[k].Name == "activations" || n.Attribute[k].Name == "direction" || n.Attribute[k].Name == "hidden_size" || n.Attribute[k].Name == "input_forget")
+//@   ensures hidden_size_stored: err == nil ==> (forall k :: 0 <= k && k < len(n.Attribute) && n.Attribute[k].Name == "hidden_size" && (forall j :: k < j && j < len(n.Attribute) ==> n.Attribute[j].Name != "hidden_size") ==> self.hiddenSize == n.Attribute[k].I)
+//@   loop 1 invariant forall k :: 0 <= k && k < $i && n.Attribute[k].Name == "hidden_size" && (forall j :: k < j && j < $i ==> n.Attribute[j].Name != "hidden_size") ==> self.hiddenSize == n.Attribute[k].I
+//@   ensures one_activation_per_listed_name: err == nil ==> (forall k :: 0 <= k && k < len(n.Attribute) && n.Attribute[k].Name == "activations" && (forall j :: k < j && j < len(n.Attribute) ==> n.Attribute[j].Name != "activations") ==> len(self.activations) == len(n.Attribute[k].Strings))
+//@   loop 1 invariant forall k :: 0 <= k && k < $i && n.Attribute[k].Name == "activations" && (forall j :: k < j && j < $i ==> n.Attribute[j].Name != "activations") ==> len(self.activations) == len(n.Attribute[k].Strings)
+//@   ensures default_activations_kept: err == nil && (forall k :: 0 <= k && k < len(n.Attribute) ==> n.Attribute[k].Name != "activations") ==> sameslice(self.activations, old(self.activations))
+//@   loop 1 invariant (forall k :: 0 <= k && k < $i ==> n.Attribute[k].Name != "activations") ==> sameslice(self.activations, old(self.activations))
+//@   loop 2 invariant len(activations) == $i
+//@   ensures input_forget_honoured_or_refused: (exists k :: 0 <= k && k < len(n.Attribute) && n.Attribute[k].Name == "input_forget" && n.Attribute[k].I != 0) ==> err != nil
+//@   loop 1 invariant forall k :: 0 <= k && k < $i && n.Attribute[k].Name == "input_forget" ==> n.Attribute[k].I == 0
+
+//@ func (*GRU).Init
+//@   tags C06,C02
+//@   requires self != nil
+//@   scope attributes_present: n != nil && (forall k :: 0 <= k && k < len(n.Attribute) ==> n.Attribute[k] != nil)
+//@   modifies opstate(self)
+//@   ensures clip_refused: (exists k :: 0 <= k && k < len(n.Attribute) && n.Attribute[k].Name == "clip") ==> err != nil
+//@   ensures unknown_attribute_refused: (exists k :: 0 <= k && k < len(n.Attribute) && n.Attribute[k].Name != "activation_alpha" && n.Attribute[k].Name != "activation_beta" && n.Attribute[k].Name != "activations" && n.Attribute[k].Name != "direction" && n.Attribute[k].Name != "hidden_size" && n.Attribute[k].Name != "linear_before_reset" && n.Attribute[k].Name != "clip") ==> err != nil
+//@   loop 1 invariant forall k :: 0 <= k && k < $i ==> (n.Attribute[k].Name == "activation_alpha" || n.Attribute[k].Name == "activation_beta" || n.Attribute[k].Name == "activations" || n.Attribute[k].Name == "direction" || n.Attribute[k].Name == "hidden_size" || n.Attribute[k].Name == "linear_before_reset")
+//@   ensures hidden_size_stored: err == nil ==> (forall k :: 0 <= k && k < len(n.Attribute) && n.Attribute[k].Name == "hidden_size" && (forall j :: k < j && j < len(n.Attribute) ==> n.Attribute[j].Name != "hidden_size") ==> self.hiddenSize == n.Attribute[k].I)
+//@   loop 1 invariant forall k :: 0 <= k && k < $i && n.Attribute[k].Name == "hidden_size" && (forall j :: k < j && j < $i ==> n.Attribute[j].Name != "hidden_size") ==> self.hiddenSize == n.Attribute[k].I
+//@   ensures one_activation_per_listed_name: err == nil ==> (forall k :: 0 <= k && k < len(n.Attribute) && n.Attribute[k].Name == "activations" && (forall j :: k < j && j < len(n.Attribute) ==> n.Attribute[j].Name != "activations") ==> len(self.activations) == len(n.Attribute[k].Strings))
+//@   loop 1 invariant forall k :: 0 <= k && k < $i && n.Attribute[k].Name == "activations" && (forall j :: k < j && j < $i ==> n.Attribute[j].Name != "activations") ==> len(self.activations) == len(n.Attribute[k].Strings)
+//@   ensures default_activations_kept: err == nil && (forall k :: 0 <= k && k < len(n.Attribute) ==> n.Attribute[k].Name != "activations") ==> sameslice(self.activations, old(self.activations))
+//@   loop 1 invariant (forall k :: 0 <= k && k < $i ==> n.Attribute[k].Name != "activations") ==> sameslice(self.activations, old(self.activations))
+//@   loop 2 invariant len(activations) == $i
+//@   ensures linear_before_reset_stored: err == nil ==> (forall k :: 0 <= k && k < len(n.Attribute) && n.Attribute[k].Name == "linear_before_reset" && (forall j :: k < j && j < len(n.Attribute) ==> n.Attribute[j].Name != "linear_before_reset") ==> (self.linearBeforeReset <==> n.Attribute[k].I != 0))
+//@   loop 1 invariant forall k :: 0 <= k && k < $i && n.Attribute[k].Name == "linear_before_reset" && (forall j :: k < j && j < $i ==> n.Attribute[j].Name != "linear_before_reset") ==> (self.linearBeforeReset <==> n.Attribute[k].I != 0)
+//@   ensures linear_before_reset_default_kept: err == nil && (forall k :: 0 <= k && k < len(n.Attribute) ==> n.Attribute[k].Name != "linear_before_reset") ==> (self.linearBeforeReset <==> old(self.linearBeforeReset))
+//@   loop 1 invariant (forall k :: 0 <= k && k < $i ==> n.Attribute[k].Name != "linear_before_reset") ==> (self.linearBeforeReset <==> old(self.linearBeforeReset))
+
+//@ func (*RNN).Init
+//@   tags C06,C02
+//@   requires self != nil
+//@   scope attributes_present: n != nil && (forall k :: 0 <= k && k < len(n.Attribute) ==> n.Attribute[k] != nil)
+//@   modifies opstate(self)
+//@   ensures clip_refused: (exists k :: 0 <= k && k < len(n.Attribute) && n.Attribute[k].Name == "clip") ==> err != nil
+//@   ensures unknown_attribute_refused: (exists k :: 0 <= k && k < len(n.Attribute) && n.Attribute[k].Name != "activation_alpha" && n.Attribute[k].Name != "activation_beta" && n.Attribute[k].Name != "activations" && n.Attribute[k].Name != "direction" && n.Attribute[k].Name != "hidden_size" && n.Attribute[k].Name != "clip") ==> err != nil
+//@   loop 1 invariant forall k :: 0 <= k && k < $i ==> (n.Attribute[k].Name == "activation_alpha" || n.Attribute[k].Name == "activation_beta" || n.Attribute[k].Name == "activations" || n.Attribute[k].Name == "direction" || n.Attribute[k].Name == "hidden_size")
+//@   ensures hidden_size_stored: err == nil ==> (forall k :: 0 <= k && k < len(n.Attribute) && n.Attribute[k].Name == "hidden_size" && (forall j :: k < j && j < len(n.Attribute) ==> n.Attribute[j].Name != "hidden_size") ==> self.hiddenSize == n.Attribute[k].I)
+//@   loop 1 invariant forall k :: 0 <= k && k < $i && n.Attribute[k].Name == "hidden_size" && (forall j :: k < j && j < $i ==> n.Attribute[j].Name != "hidden_size") ==> self.hiddenSize == n.Attribute[k].I
+//@   ensures one_activation_per_listed_name: err == nil ==> (forall k :: 0 <= k && k < len(n.Attribute) && n.Attribute[k].Name == "activations" && (forall j :: k < j && j < len(n.Attribute) ==> n.Attribute[j].Name != "activations") ==> len(self.activations) == len(n.Attribute[k].Strings))
+//@   loop 1 invariant forall k :: 0 <= k && k < $i && n.Attribute[k].Name == "activations" && (forall j :: k < j && j < $i ==> n.Attribute[j].Name != "activations") ==> len(self.activations) == len(n.Attribute[k].Strings)
+//@   ensures default_activations_kept: err == nil && (forall k :: 0 <= k && k < len(n.Attribute) ==> n.Attribute[k].Name != "activations") ==> sameslice(self.activations, old(self.activations))
+//@   loop 1 invariant (forall k :: 0 <= k && k < $i ==> n.Attribute[k].Name != "activations") ==> sameslice(self.activations, old(self.activations))
+//@   loop 2 invariant len(activations) == $i
 
 // ---------------------------------------------------------------------------------------
 // C04 (partly): Gemm, LinearRegressor, Scaler: shapes, refusals, and the wiring of gorgonia's
